@@ -277,6 +277,11 @@ pub fn fork(kind: ForkKind, cfg_a: &Cfg, cfg_b: &Cfg, head_a: &[Op], head_b: &[O
     let ta = a.w.trace.clone().unwrap();
     let tb = b.w.trace.clone().unwrap();
     let mut viol = None;
+    if a.w.failed() || b.w.failed() {
+        // one branch tripped a per-endpoint monitor: that is the finding, under its own properties
+        viol = a.w.viol.clone().or(b.w.viol.clone());
+        return ForkResult { viol, a, b };
+    }
     if let Some((i, d)) = first_diff(&ta, &tb) {
         let k = ta.get(i).or(tb.get(i)).map(|x| kind_of_what(&x.0)).unwrap_or_default();
         let label = match kind {
